@@ -10,6 +10,7 @@ from __future__ import annotations
 
 import copy
 import io
+import itertools
 import sys
 import traceback
 from typing import Any, Dict, Iterator, List, Tuple
@@ -38,7 +39,7 @@ META = {
         "colour spaces/inline image/nested forms; RC4, AES-128 and AES-256 (R6) encryption; incremental update with /Prev; embedded TrueType "
         "programs with cmap formats 4 and 12; content streams through LZW, RunLength, ASCII85, ASCIIHex, Flate+PNG/TIFF predictors and a filter chain). The generated object stream and "
         "cross-reference stream (dictionary entries and payload) and every stream's /Length are fault sites too; /Prev additionally "
-        "gets the values 'offset of its own section' and 'one byte before it' (on the end-of-line in front of the xref keyword). structural faults: every dictionary entry, array element, stream-dictionary "
+        "gets the values 'offset of its own section' and 'one byte before it' (on the end-of-line in front of the xref keyword). cycle2: every two objects of one /Type and /Subtype whose same key holds a reference (or an array starting with one) made to name each other there (cycles of length two: Type0 fonts as each other's descendant, page-tree nodes as each other's kid or parent). structural faults: every dictionary entry, array element, stream-dictionary "
         "entry, top-level object and trailer entry x {null,int,real,name,string,array,dict,boolean,ref->self,ref->missing,"
         "ref->ancestor(cycle), empty array, empty dict, 2**70, 2**63-1, 10**400, a 400-digit real, -1, 0} (the representative of the value's own type skipped) plus key removal; payload faults: every stream truncated at "
         "every length and emptied (thorough: one byte replaced at every position by 00,FF,'<','('); file truncated at every byte; content-stream faults on the graphics seed, whose "
@@ -293,6 +294,29 @@ def structural_faults(name: str) -> List[Tuple]:
     return out
 
 
+# cycles of length two: two objects of the same /Type and /Subtype whose SAME key holds a reference (or an array starting
+# with one) are made to name each other there (two Type0 fonts as each other's descendant, two page-tree nodes as each
+# other's kid or parent, two outline items as each other's /Next ...); the single-fault kinds reach self-references only
+def cycle2_faults(name: str) -> List[Tuple]:
+    doc, kw = S.SEEDS[name]()
+    groups: Dict[Tuple, List[int]] = {}
+    for num in sorted(doc.objs):
+        obj = doc.objs[num][1]
+        d = obj.d if isinstance(obj, Stream) else obj
+        if isinstance(d, dict) and isinstance(d.get("Type"), Name):
+            groups.setdefault((repr(d.get("Type")), repr(d.get("Subtype"))), []).append(num)
+    out = []
+    for nums in groups.values():
+        for a, b in itertools.combinations(nums, 2):
+            da, db = (doc.objs[n][1].d if isinstance(doc.objs[n][1], Stream) else doc.objs[n][1] for n in (a, b))
+            for k in sorted(set(da) & set(db)):
+                def shape(v):
+                    return "ref" if isinstance(v, Ref) else "list" if isinstance(v, list) and v and isinstance(v[0], Ref) else None
+                if shape(da[k]) and shape(da[k]) == shape(db[k]):
+                    out.append(("cycle2", a, b, k, shape(da[k])))
+    return out
+
+
 # pairs of faults on the cross-reference stream dictionary (/W, /Index, /Size and their elements): the entries are read together
 # (entry length x entry count), so some defects need two of them damaged (added after seeded defect C13_20 was missed)
 GEN2_VALUES = {"zero": 0, "big": 2**40, "zeros": [0, 0, 0], "empty": []}
@@ -344,6 +368,10 @@ def materialise(name: str, fault: Tuple) -> bytes:
             kw["info"] = None
             te.pop("Info")
         kw["trailer_extra"] = te
+    elif fault[0] == "cycle2":
+        _, a, b, k, shp = fault
+        for x, y in ((a, b), (b, a)):
+            set_at(doc, x, ((("sd" if isinstance(doc.objs[x][1], Stream) else "k"), k),), Ref(y) if shp == "ref" else [Ref(y)])
     elif fault[0] == "payload":
         _, num, op, pos, val = fault
         st = doc.objs[num][1]
@@ -609,6 +637,9 @@ def shards(tier):
         fs = token_faults(name)
         for i in range(0, len(fs), 250):
             out.append(("tokens", name, i, min(i + 250, len(fs))))
+    for name in t["seeds"]:
+        if cycle2_faults(name):
+            out.append(("cycle2", name))
     for name in ("xref", "xrefidx"):
         fs = gen2_faults(name)
         for i in range(0, len(fs), 150):
@@ -664,6 +695,11 @@ def run_shard(shard, tier, st):
             judge(st, name, f, data, t["entries"], seed_bytes)
         if shard[2] == 0:
             st.sample({"seed": name, "fault": fs[3], "bytes": len(seed_bytes)})
+    elif shard[0] == "cycle2":
+        fs = cycle2_faults(name)
+        for f in fs:
+            judge(st, name, f, materialise(name, f), t["entries"], seed_bytes)
+        st.sample({"seed": name, "fault": fs[0], "family": "two objects of one kind naming each other under the same key", "n": len(fs)})
     elif shard[0] == "gen2":
         fs = gen2_faults(name)[shard[2]:shard[3]]
         for f in fs:
